@@ -481,6 +481,10 @@ def kernel_stage(ctx, cov):
             key = tuple(k.path for k in kk) + (ln.split(" ", 1)[0],)
             if key in seen: continue
             seen.add(key)
+            if a.startswith("<crash rc=-4>") and any(k.isa_unknown for k in kk):
+                # SIGILL in a kernel whose disassembly has mnemonics the ISA table does not know: not executable here -> skipped AND listed
+                kc.setdefault("skipped_sigill", []).append({"kernels": [k.path for k in kk], "unclassified_mnemonics": sorted(set(m for k in kk for m in k.isa_unknown)), "op": ln[:200]})
+                continue
             p = write_kernel_replay(ctx, h, kk, ln, a, b, note, mode)
             names = ", ".join(k.path for k in kk) or ("directory " + h.dir)
             log("KERNEL DISAGREEMENT %s: %s\n  kernel: %s\n  model : %s" % (names, ln[:200], a[:200], b[:200]))
